@@ -114,3 +114,44 @@ class SymKDTree:
 
 
 cKDTree = SymKDTree
+
+
+class SymDelaunay:
+    """scipy.spatial.Delaunay(points).find_simplex(x) != -1  <=>  x lies in the convex hull of the points
+    (points on the hull boundary may go either way).  in_hull is an uninterpreted predicate of the point
+    set (identified by its written contents) and the query point."""
+
+    def __init__(self, points, **kw):
+        _use("spatial.Delaunay")
+        from .core import array_text
+        import hashlib
+
+        pts = as_array(points)
+        if pts.ndim != 2:
+            raise ValueError("points must be 2-D")
+        self.points = pts.copy()
+        self.tag = hashlib.sha1(array_text(self.points).encode()).hexdigest()[:12]
+        c = ctx()
+        c.ghost.setdefault("delaunay", []).append(self)
+
+    def in_hull(self, x, y):
+        import z3
+
+        from .core import SymBool, to_z3
+
+        f = z3.Function("in_hull_" + self.tag, z3.RealSort(), z3.RealSort(), z3.BoolSort())
+        return SymBool(f(to_z3(x, "real"), to_z3(y, "real")))
+
+    def find_simplex(self, xi, **kw):
+        _use("spatial.Delaunay.find_simplex")
+        x = as_array(xi)
+        if x.ndim != 2:
+            raise Unsupported("find_simplex of a non 2-D query")
+        xs = x.snapshot()
+        simplex = havoc_array("simplex", (x.shape[0],), "i")
+        ss = simplex.snapshot()
+        S.assume(Forall((x.shape[0],), lambda q: and_(ss(q) >= -1, (ss(q) != -1) == self.in_hull(xs(q, 0), xs(q, 1))), name="delaunay.find_simplex"))
+        return simplex
+
+
+Delaunay = SymDelaunay
